@@ -135,7 +135,10 @@ def run_real(disp, plan, ops, patience=1):
         for op in ops:
             os.kill = watched_kill
             try:
-                ret = _one_op(ch, p, op, patience)
+                with common.guard(30):
+                    ret = _one_op(ch, p, op, patience)
+            except common.Stuck:
+                ret = 'EXC:still-blocked-after-30s'
             finally:
                 os.kill = real_kill
             if stale:
